@@ -74,13 +74,13 @@ CHECKS = {
     "C15": dict(
         engine="corr-pure",
         technique="Coq proof (worklist closure of flag_children; list lemmas for the run/remove sets of update on a chain of states) + correspondence: the real update tool under the selftests' job seam vs Model/Tools.v on a separately parsed state graph",
-        text=("Proved: flag_children reaches exactly the nodes connected through child edges (with/without the start node); on a duplicate-free chain update_runs = the segment from from_state to to_state, both included, update_unsets = exactly what follows to_state. Checked: intertest_setup.update for (from,to) pairs along vm1's states x worker sets runs exactly those tests and removes exactly the states derived from to_state, touches no other vm, and rejects unknown states; updates of 2-3 vms on 2-4 workers (randomly delayed stub tests) execute every path test exactly once across all workers; updates of a vm selected without variant restriction (CentOS and Fedora) execute the path once for every variant. PARTIAL: the state graph given to the model comes from the real parser."),
+        text=("Proved: flag_children reaches exactly the nodes connected through child edges (with/without the start node); on a duplicate-free chain update_runs = the segment from from_state to to_state, both included, update_unsets = exactly what follows to_state. Checked: intertest_setup.update for (from,to) pairs along vm1's states x worker sets runs exactly those tests and removes exactly the states derived from to_state, touches no other vm, and rejects unknown states (made-up names and states that exist only in another vm's graph); updates of 2-3 vms on 2-4 workers (randomly delayed stub tests) execute every path test exactly once across all workers; updates of a vm selected without variant restriction (CentOS and Fedora) execute the path once for every variant. PARTIAL: the state graph given to the model comes from the real parser."),
         note=COMMON_NOTE + "The selftests' job seam (mock job, stub run_test_task with random short delays, recording door) stands for the avocado job and the remote state control.",
         design="§5 C15"),
     "C20": dict(
         engine="corr-pure",
         technique="Coq proof by induction over the chain (all steps run in order; return code 1 iff some step failed) + invariant over schedules (only the own worker executes a node) + correspondence: real Manu.run with stub steps (exhaustive up to length 3) and the real per-vm / per-worker tools under the selftests' job seam",
-        text=("Proved: chain theorems for any chain; C20_only_own_worker_partial for any schedule. Checked: Manu.run against the model for every chain of up to 3 outcomes over {None, 0, 1, 2, raise} and for chains that use a step several times; a tool whose tests fail returns a failure status; check/get/set/unset/push/pop/clean/collect/create execute exactly once per selected vm and worker with the step's vm_action, boot/shutdown once per worker with all selected vms, nothing for unselected vms (evaluated by Check.C20.star_ok). PARTIAL: 'exactly once' is checked on the real tools, not proved for the traversal model."),
+        text=("Proved: chain theorems for any chain; C20_only_own_worker_partial for any schedule. Checked: Manu.run against the model for every chain of up to 3 outcomes over {None, 0, 1, 2, raise} and for chains that use a step several times; a tool whose tests fail returns a failure status; every step of a chain of real tools run on one shared configuration executes exactly what the same step executes alone on a fresh configuration (the parameters of one step do not leak into the next); check/get/set/unset/push/pop/clean/collect/create execute exactly once per selected vm and worker with the step's vm_action, boot/shutdown once per worker with all selected vms, nothing for unselected vms (evaluated by Check.C20.star_ok). PARTIAL: 'exactly once' is checked on the real tools, not proved for the traversal model."),
         note=COMMON_NOTE + "The selftests' job seam (mock job, stub run_test_task with random short delays, recording door) stands for the avocado job and the remote state control.",
         design="§5 C20"),
     "C14": dict(
